@@ -24,6 +24,16 @@ Theorem C07_split : forall (s : list Z) (sep : Z), m_split s sep = split_on sep 
 Proof. exact split_spec. Qed.
 Print Assumptions C07_split.
 
+(* strops.split with a LIST of separators: the pieces between characters that are IN the list — membership only,
+   so the order in which the separators are listed and repetitions cannot matter *)
+Theorem C07_split_list :
+  forall (s seps : list Z), m_split_l s seps = split_by (fun x => memb x seps) s.
+Proof. exact split_list_spec. Qed.
+Print Assumptions C07_split_list.
+Theorem C07_split_list_single : forall sep s, split_by (fun x => memb x [sep]) s = split_on sep s.
+Proof. exact split_by_single. Qed.
+Print Assumptions C07_split_list_single.
+
 (* T1: split undoes join when no row contains the separator. *)
 Theorem C07_split_join_inverse :
   forall (fill : list Z) (rows : list (list Z)) (sep : Z),
